@@ -26,4 +26,11 @@ theorem missingTruth_iff (scoresAreError truthIsError : Bool) (nRatedUnscored nS
     missingTruthBranch scoresAreError truthIsError nRatedUnscored nScoredUnrated = (if truthIsError && decide (0 < nScoredUnrated) then 0 else 1) := by
   cases truthIsError <;> by_cases h : nScoredUnrated = 0 <;> simp [missingTruthBranch, LK.Py.truthy, h] <;> omega
 
+
+/-- the default a metric is registered with: one that is given — 0 included — is kept; otherwise the metric's own (which may be "none"),
+    or 0 for a plain function -/
+theorem wrapDefault_spec (given own : LK.Py.V) (isListMetric : Bool) :
+    wrapDefault given isListMetric own = (match given with | some d => some d | none => if isListMetric then own else some 0) := by
+  cases given <;> cases isListMetric <;> simp [wrapDefault]
+
 end LK.Gen.GuardsC07
